@@ -41,7 +41,7 @@ func VH_C09_kauri(n int, m int, twoMask int) {
 	}
 	tr := tree.NewSimple(1, 2, ids)
 	w := cert.VNewWorld(1, n, false, 0, sym, core.WithKauriTree(tr))
-	q := hotstuff.QuorumSize(n)
+	q := hotstuff.VQuorumRef(n)
 	el := eventloop.New(logging.VNop(), 100)
 	snd := &vhKSender{}
 	k := &Kauri{logger: logging.VNop(), eventLoop: el, config: w.Cfg, blockchain: w.Chain, auth: w.Auth, sender: snd, tree: tr, initDone: true}
